@@ -8,7 +8,7 @@
    dictates, drawn from user types towards relations". *)
 From Coq Require Import Permutation.
 From Verif Require Import Base.Str Base.Outcome Model.Ast Model.Printer Model.WGraph Model.PGraph Spec.GraphShape Spec.PGraphShape
-  Proofs.PGraphProofs Proofs.BfsProofs Proofs.BuilderShape Proofs.PBuilderShape.
+  Proofs.PGraphProofs Proofs.BfsProofs Proofs.BuilderShape Proofs.PBuilderShape Proofs.BuilderNodes Proofs.PBuilderNodes.
 
 (* 1. reversing keeps the nodes (IDs and labels) and negates the drawing direction, for every graph *)
 Theorem C17_reverse_keeps_nodes : forall g,
@@ -116,3 +116,18 @@ Example C17_structure_example :
   entries (pbuild m) (lit "doc#v") = [(lit "union:0", ERewrite, [], [no_cond])] /\
   entries (pbuild m) (lit "union:0") = [(lit "doc#v", EDirect, [], [no_cond]); (lit "doc#v", ETTU, lit "doc#p", [no_cond])].
 Proof. cbv zeta. split; [vm_compute; reflexivity|]. split; vm_compute; reflexivity. Qed.
+
+(* 7. LABEL LOOK-UP, for every model: a label that is found is one the model names (a type, a defined relation, the
+      target of a type restriction of a direct assignment, a computed userset, the parent relation of a
+      tuple-to-userset that the parent type defines) or an operator label below the operator count; every label the
+      model names is found *)
+Theorem C17_label_lookup : forall m ul,
+  (find_pnode ul (pbuild m) <> None -> In ul (pexact_ids m) \/ is_opnode (pg_ops (pbuild m)) ul) /\
+  (In ul (pexact_ids m) -> find_pnode ul (pbuild m) <> None).
+Proof. exact label_lookup. Qed.
+
+Theorem C17_node_inventory : forall m,
+  (forall n, In n (pg_nodes (pbuild m)) -> In (pn_ulabel n) (pexact_ids m) \/ is_opnode (pg_ops (pbuild m)) (pn_ulabel n)) /\
+  (forall ul, In ul (pexact_ids m) -> find_pnode ul (pbuild m) <> None) /\
+  (forall j, j < pg_ops (pbuild m) -> exists op, In op op_names /\ find_pnode (op_id op j) (pbuild m) <> None).
+Proof. exact pbuild_nodes. Qed.
